@@ -177,6 +177,57 @@ void sources(graph& g) {
     input_port<0>(comp).try_put(1);
 }
 
+// copy constructors of every node kind (each copies the body / key functors and re-creates the internal state), node
+// iteration, typed decrementer, body extraction
+void copies_and_misc(graph& g) {
+    function_node<int, int> f(g, unlimited, [](const int& v) -> int { return v; });
+    function_node<int, int> f2(f);
+    function_node<int, int, rejecting> fr(g, serial, [](const int& v) -> int { return v; });
+    function_node<int, int, rejecting> fr2(fr);
+    typedef multifunction_node<int, std::tuple<int, int>> MF;
+    MF mf(g, 3, [](const int&, MF::output_ports_type&) {});
+    MF mf2(mf);
+    continue_node<int> cn(g, [](const continue_msg&) -> int { return 1; });
+    continue_node<int> cn2(cn);
+    int n = 0;
+    input_node<int> in(g, [&](tbb::flow_control& fc) -> int { fc.stop(); return n; });
+    input_node<int> in2(in);
+    buffer_node<int> b(g); buffer_node<int> b2(b);
+    queue_node<int> q(g); queue_node<int> q2(q);
+    priority_queue_node<int> pq(g); priority_queue_node<int> pq2(pq);
+    sequencer_node<int> sq(g, [](const int& m) -> std::size_t { return std::size_t(m); }); sequencer_node<int> sq2(sq);
+    overwrite_node<int> ow(g); overwrite_node<int> ow2(ow);
+    write_once_node<int> wo(g); write_once_node<int> wo2(wo);
+    broadcast_node<int> bc(g); broadcast_node<int> bc2(bc);
+    limiter_node<int> lim(g, 3); limiter_node<int> lim2(lim);
+    limiter_node<int, int> limi(g, 3);
+    function_node<int, int> decf(g, serial, [](int v) -> int { return v; });
+    make_edge(decf, limi.decrementer());
+    limi.try_put(1);
+    limi.decrementer().try_put(2);
+    split_node<std::tuple<int, int>> sp(g); split_node<std::tuple<int, int>> sp2(sp);
+    indexer_node<int, int> ix(g); indexer_node<int, int> ix2(ix);
+    join_node<std::tuple<int, int>, queueing> jq(g); join_node<std::tuple<int, int>, queueing> jq2(jq);
+    join_node<std::tuple<int, int>, reserving> jr(g); join_node<std::tuple<int, int>, reserving> jr2(jr);
+    join_node<std::tuple<int, int>, key_matching<int>> jk(g, [](const int& m) -> int { return m; }, [](const int& m) -> int { return m; });
+    join_node<std::tuple<int, int>, key_matching<int>> jk2(jk);
+    typedef async_node<int, int> AN;
+    AN an(g, unlimited, [](const int&, AN::gateway_type&) {});
+    AN an2(an);
+    (void)an.gateway();
+    auto body = copy_body<std::function<int(const int&)>>(f);
+    (void)body;
+    for (graph::iterator it = g.begin(); it != g.end(); ++it) { (void)*it; }
+    const graph& cg = g;
+    for (graph::const_iterator it = cg.cbegin(); it != cg.cend(); it++) {}
+    make_edge(f, f2);
+    remove_edge(f, f2);
+    make_edge(output_port<0>(mf), f);
+    remove_edge(output_port<0>(mf), f);
+    make_edge(f, input_port<0>(jq));
+    remove_edge(f, input_port<0>(jq));
+}
+
 void graph_api() {
     tbb::task_group_context ctx;
     graph g(ctx);
@@ -189,6 +240,7 @@ void graph_api() {
     joins(g);
     routing(g);
     sources(g);
+    copies_and_misc(g);
     g.reserve_wait();
     g.release_wait();
     g.wait_for_all();
